@@ -283,8 +283,8 @@ pub fn gallina_blocks(t: &BuiltTree, int: &mut Interned) -> String {
     gal::list(&items)
 }
 
-pub fn snapshot_rows(int: &mut Interned, code: u64, s: &ChainSnapshot) -> Vec<Vec<u64>> {
-    let mut rows = vec![vec![code], vec![s.tip_id, hidx(int, &s.tip_hash)]];
+pub fn snapshot_rows(int: &mut Interned, code: u64, steps: u64, s: &ChainSnapshot) -> Vec<Vec<u64>> {
+    let mut rows = vec![vec![code, steps], vec![s.tip_id, hidx(int, &s.tip_hash)]];
     let mut lc = vec![];
     for (id, h) in &s.lc_index {
         lc.push(*id);
@@ -312,6 +312,7 @@ pub fn snapshot_rows(int: &mut Interned, code: u64, s: &ChainSnapshot) -> Vec<Ve
 pub async fn deliver(t: &BuiltTree, int: &mut Interned, order: &[usize], allow_orphans: bool) -> RunOut {
     let mut node = Node::new(&params(t.spec.gp, t.spec.loading_completed), 1);
     let mut out = RunOut { obs: vec![], rows: vec![], delivered: vec![], first_orphan: None };
+    saito_core::core::consensus::blockchain::VERIF_WIND_STEPS.with(|c| c.set((0, u64::MAX)));
     for &i in order {
         let block = t.blocks[i].clone();
         // "orphan": arrives while its parent is not stored. The very first block
@@ -358,7 +359,8 @@ pub async fn deliver(t: &BuiltTree, int: &mut Interned, order: &[usize], allow_o
                     let w = node.wallet_lock.read().await;
                     (w.get_available_balance(), w.get_unspent_slip_count())
                 };
-                out.rows.push(snapshot_rows(int, class.code(), &snap));
+                let steps = saito_core::core::consensus::blockchain::VERIF_WIND_STEPS.with(|c| c.get().0);
+                out.rows.push(snapshot_rows(int, class.code(), steps, &snap));
                 out.obs.push(Obs { code: class.code(), snap: Some(snap), wallet, panic_msg: None });
             }
             Err(msg) => {
